@@ -7,6 +7,7 @@
    OmegaGen.C06_Opmap is regenerated from /repo on every run. *)
 From Coq Require Import ZArith List Bool Lia.
 From Omega Require Import L1Circuits.Circuits L1Circuits.CircuitsProofs
+  L1Circuits.Deep L1Circuits.DeepProofs
   L2Compile.Expr L2Compile.CompileProofs L2Compile.Accept L2Compile.AcceptProofs.
 Import ListNotations.
 Open Scope Z_scope.
@@ -110,6 +111,78 @@ Example C06_refuted_eqless :
   sval x = 0 /\ sval y = 1 /\
   comparator_old_eqless x y = false /\ comparator CLe x y = true.
 Proof. exact refuted_old_eqless. Qed.
+
+(* ============================ L1d: the emitted formulas and their buffers == *)
+(* Deep.d_* build the same formulas as bitvector.py (result bits, memory
+   cells with "? i" registers, carry), compared token by token with the real
+   strings on every run.  Soundness: if the operand formulas have values
+   vx, vy in memory m (and in all its extensions), then after running the
+   appended cells from m as symbolic/bdd.py does, the result formulas have the
+   values computed by the shallow circuit -- for all widths and all start
+   addresses [length m].  [stable vars m e v]: e evaluates to v in every
+   extension of m. *)
+Theorem C06_emit_adder_sound : forall vars x vx y vy add e m,
+  Forall2 (stable vars m) x vx -> Forall2 (stable vars m) y vy ->
+  let '(res, mem, cf) := d_adder_subtractor x y add (length m) e in
+  let m1 := run vars m mem in
+  extends m m1 (length mem) /\
+  Forall2 (stable vars m1) res (fst (adder_subtractor vx vy add e)) /\
+  stable vars m1 cf (snd (adder_subtractor vx vy add e)).
+Proof. exact adder_sound. Qed.
+
+(* the value of the buffer "$ n ..." emitted by flatten_comparator *)
+Theorem C06_emit_comparator_sound : forall vars o x vx y vy m,
+  Forall2 (stable vars m) x vx -> Forall2 (stable vars m) y vy ->
+  last (run vars m (d_flatten_comparator o x y (length m))) false
+  = comparator o vx vy.
+Proof. exact comparator_sound. Qed.
+
+Theorem C06_emit_ite_sound : forall vars a va b vb c vc m,
+  stable vars m a va -> Forall2 (stable vars m) b vb -> Forall2 (stable vars m) c vc ->
+  length vb = length vc ->
+  let '(r, mem) := d_ite_function a b c (length m) in
+  let m1 := run vars m mem in
+  extends m m1 (length mem) /\
+  Forall2 (stable vars m1) r (ite_function va vb vc).
+Proof. exact ite_sound. Qed.
+
+Theorem C06_emit_negate_if_sound : forall vars g vg x vx m,
+  stable vars m g vg -> Forall2 (stable vars m) x vx -> (1 <= length vx)%nat ->
+  let '(r, mem) := d_negate_if g x (length m) in
+  let m1 := run vars m mem in
+  extends m m1 (length mem) /\ Forall2 (stable vars m1) r (negate_if vg vx).
+Proof. exact negate_if_sound. Qed.
+
+Theorem C06_emit_multiplier_sound : forall vars x vx y vy m,
+  Forall2 (stable vars m) x vx -> Forall2 (stable vars m) y vy ->
+  let '(res, mem) := d_multiplier x y (length m) in
+  let m1 := run vars m mem in
+  extends m m1 (length mem) /\ Forall2 (stable vars m1) res (multiplier vx vy).
+Proof. exact multiplier_sound. Qed.
+
+Theorem C06_emit_divider_sound : forall vars x vx y vy m,
+  Forall2 (stable vars m) x vx -> Forall2 (stable vars m) y vy ->
+  (1 <= length vx)%nat -> (1 <= length vy)%nat ->
+  let '(quo, rem, mem) := d_restoring_divider x y (length m) in
+  let m1 := run vars m mem in
+  extends m m1 (length mem) /\
+  Forall2 (stable vars m1) quo (fst (restoring_divider vx vy)) /\
+  Forall2 (stable vars m1) rem (snd (restoring_divider vx vy)).
+Proof. exact divider_sound. Qed.
+
+(* non-vacuity: operands that are bit variables are stable in any memory *)
+Example C06_emit_nonvacuous :
+  let vars := fun v => Nat.eqb v 0 || Nat.eqb v 101 in
+  Forall2 (stable vars [true; false]) [XV 0; XV 1] [true; false] /\
+  Forall2 (stable vars [true; false]) [XV 100; XV 101; XR 0] [false; true; true] /\
+  let '(quo, rem, mem) := d_restoring_divider [XV 0; XV 1] [XV 100; XV 101; XR 0] 2 in
+  map (evalx vars (run vars [true; false] mem)) quo = fst (restoring_divider [true; false] [false; true; true]).
+Proof.
+  split; [|split].
+  - repeat constructor; intros m'; reflexivity.
+  - repeat constructor; intros m'; reflexivity.
+  - vm_compute. reflexivity.
+Qed.
 
 (* ================================================= L0/L2: the refinement == *)
 (* The bits of a declared integer decode exactly onto the interval of
@@ -374,6 +447,12 @@ Print Assumptions C06_abs_exact.
 Print Assumptions C06_multiplier_exact.
 Print Assumptions C06_divider_exact.
 Print Assumptions C06_constant_exact.
+Print Assumptions C06_emit_adder_sound.
+Print Assumptions C06_emit_comparator_sound.
+Print Assumptions C06_emit_ite_sound.
+Print Assumptions C06_emit_negate_if_sound.
+Print Assumptions C06_emit_multiplier_sound.
+Print Assumptions C06_emit_divider_sound.
 Print Assumptions C06_var_bits_into_limits.
 Print Assumptions C06_var_bits_onto_limits.
 Print Assumptions C06_quantifier_domain.
